@@ -33,13 +33,17 @@
 (*  {"ev":"Pure","scn":n,"fn":"ParseRanges","in":{"expr":"9000-9005,9010"},  *)
 (*     "out":{"ok":b,"ranges":[[b,e]..],"yaml_ok":b,"yaml_ranges":[[b,e]..]}}*)
 (*                                                                         *)
-(* Round level (to be emitted by the whole-core simulation; today only by   *)
-(* harness/cmd/placement -mode synth, a self-test of this specification).   *)
+(* Round level.  Emitted by lib/props/C05.py from the master-side record of *)
+(* the whole-core simulation (harness/coresim, step c05_round): MOffers ->   *)
+(* Round, MAccept -> Accept, MDecline -> Decline, all offers of the first    *)
+(* OFFERS event answered -> RoundEnd, core process died -> Panic; and by     *)
+(* harness/cmd/placement -mode synth (self-test of this specification).      *)
 (* All cpu numbers of a round are integers in ONE unit - use milli-cores,   *)
 (* round(1000*cpus), so that the executor share (default 0.01) counts; mem  *)
 (* in MB, rounded.  One round = Round, then one Accept per ACCEPT call the  *)
-(* master received (in arrival order, INCLUDING those without operations:   *)
-(* "tasks":[]), then Decline lines, then exactly one Verdict (or a Panic).  *)
+(* master received (any order; those without operations, "tasks":[], may be *)
+(* included: such an offer counts as declined), Decline lines, then exactly *)
+(* one of Verdict | RoundEnd | Panic.                                       *)
 (*  {"ev":"Round","scn":n,                                                  *)
 (*    "offers":[{"id":"o1","host":"h1","attrs":{"machine_id":"h1",          *)
 (*       "rack":"r1"},"cpus":4000,"mem":4096,                               *)
